@@ -203,6 +203,7 @@ class PVLParser(object):
     def parse(self, s: str):
         """Converts the string, *s* to a PVLModule."""
         self.doc = s
+        self.errors = []
         tokens = self.lexer(s, g=self.grammar, d=self.decoder)
         module = self.parse_module(tokens)
         module.errors = sorted(self.errors)
